@@ -306,10 +306,18 @@ class Evaluator(object):
             exc = None
             if st.exc is not None:
                 e = st.exc
+                built = None
                 if isinstance(e, ast.Call):
-                    self.ev(e, env)
+                    t_exc = self.ev(e, env)
+                    # raise helper(...) where a new helper builds and returns the exception object
+                    for alt in ([t_exc] if t_exc.op != "ite" else [t_exc.a[1], t_exc.a[2]]):
+                        nm = tm.callee_name(alt.a[0]) if alt.op == "call" else None
+                        if nm and nm.startswith("builtins.") and nm[9:].endswith(("Error", "Exception", "Warning")):
+                            built = nm[9:]
                     e = e.func
                 exc = ast.unparse(e)
+                if built is not None and not (isinstance(e, ast.Name) and e.id == built):
+                    exc = built
             self.site("raise", st, exc=exc, bare=st.exc is None)
             return None
         if isinstance(st, ast.If):
